@@ -2147,6 +2147,12 @@ fn strip_and_escape(s: &str) -> CompactString {
     result
 }
 
+/// verification hook (property C15): the private `strip_and_escape`, unchanged
+#[cfg(feature = "verif")]
+pub fn verif_strip_and_escape(s: &str) -> CompactString {
+    strip_and_escape(s)
+}
+
 /// Parse a string.
 /// If an error is encountered and `stop_on_error` is set to false, the parser
 /// will try to recover from the error and parse as many statements as possible
